@@ -2302,8 +2302,13 @@ def rule_X7_children(F, R):
                     if b['k'] == 'Call' and callee_decl(b) == 'std::cmp::PartialEq::eq': l_, r_ = b['args']
                     elif b['k'] == 'Binary' and b['op'] == 'Eq': l_, r_ = b['lhs'], b['rhs']
                     ok = l_ is not None and {root_var(l_) == pv, root_var(r_) == pv} == {True, False}
+                    # ... among all nodes, counted from the first: the search runs over `self.nodes.iter()` itself (an adaptor in between shifts or reverses the index)
+                    rc_ = strip(e['args'][0]); chain_ = []
+                    while rc_['k'] == 'Call' and rc_['args']:
+                        chain_.append((callee_name(rc_) or '').split('::')[-1]); rc_ = strip(rc_['args'][0])
+                    if not all(c_ in ('iter', 'deref', 'as_slice', 'as_ref') for c_ in chain_): ok = False
                     R.count('X7:position-tests'); R.obligation(ok, 'X7 position %s' % e.get('loc'))
-                    if not ok: R.violation('%s / X7 / target of an edge' % te[0], 'X7', 'the node an edge leads to must be found by equality with the child (`position(|n| n == child)`)', e.get('loc'))
+                    if not ok: R.violation('%s / X7 / target of an edge' % te[0], 'X7', 'the node an edge leads to must be found by equality with the child among all nodes (`self.nodes.iter().position(|n| n == child)`)', e.get('loc'))
     if te and n == 0: R.violation('rsbdd::parser_io::SymbolicParseTree / X7 / VACUITY', 'VACUITY', 'no position look-up found in the parse-tree edges')
     # the node list of the parse-tree graph is every index of self.nodes: 0..len
     tn_ = [k for k in lib.ithir if k.endswith('GraphWalk>::nodes') and 'SymbolicParseTree' in k]
@@ -2666,6 +2671,26 @@ def row_text(binc, t, k):
     run(t['body'], {})
     return ''.join(out)
 
+def rule_X4_flags(F, R):
+    """each kind of output is produced when, and only when, it is asked for: in main the table printer runs under args.truthtable, the
+    listing under args.vars, the ordering export under args.export_ordering (value provenance of the path conditions)"""
+    import flow as _flow
+    binc = F.bin()
+    main = binc.ithir.get('rsbdd::main') if binc else None
+    if main is None:
+        R.violation('rsbdd::main / X4 / anchor', 'UNDECIDABLE', 'main not found'); return
+    fl = _flow.Flow(binc, max_depth=0)
+    WANT = {'rsbdd::print_truth_table_recursive': 'truthtable', 'rsbdd::print_true_vars_recursive': 'vars'}
+    found = []
+    _flow.scan(fl, main['body'], {}, lambda x: x.get('k') == 'Call' and callee_name(x) in WANT, found)
+    for node, env in found:
+        flag = WANT[callee_name(node)]
+        ok = any(pol and isinstance(c_, tuple) and c_ and c_[0] == 'field' and c_[2] == flag for c_, pol in env.get('#conds', ()))
+        R.count('X4:printer-flags'); R.obligation(ok, 'X4 flag %s' % flag)
+        if not ok: R.violation('rsbdd::main / X4 / %s only on request' % flag, 'X4', '%s must run exactly under --%s; the call is reached under %s' % (
+            callee_name(node).split('::')[-1], flag, [(_flow.show(c_)[:40], pol) for c_, pol in env.get('#conds', ())][:4]), node.get('loc'))
+    if not found: R.violation('rsbdd::main / X4 / printers / VACUITY', 'VACUITY', 'no call of the table / listing printers found in main')
+
 def rule_X4_header_call(F, R):
     """C10: the table comes with its header: wherever main calls the table printer, the same block calls print_header before it"""
     binc = F.bin()
@@ -2712,7 +2737,10 @@ def rule_X12_header(F, R):
     if not ok:
         # iterator forms: labels.iter().map(|l| format!(.. l ..)).collect / for_each(|l| print!(..))
         for x in walk(t['body']):
-            if x['k'] == 'Call' and callee_decl(x) in ('std::iter::Iterator::map', 'std::iter::Iterator::for_each') and len(x['args']) == 2 and root_var(x['args'][0]) == lp: ok = True
+            if x['k'] == 'Call' and callee_decl(x) in ('std::iter::Iterator::map', 'std::iter::Iterator::for_each') and len(x['args']) == 2:
+                src = strip(x['args'][0])
+                while src['k'] == 'Call' and src['args'] and (callee_name(src) or '').split('::')[-1] in ('iter', 'into_iter', 'zip', 'enumerate', 'by_ref', 'cloned', 'copied'): src = strip(src['args'][0])
+                if root_var(src) == lp: ok = True
     R.count('X12:header-labels'); R.obligation(ok, 'X12 header labels')
     if not ok: R.violation('rsbdd::print_header / X12 / column names', 'X12', 'the header must write every label it is given: no write to standard output mentions the label of the loop over the labels', t['span']['loc'])
 
